@@ -198,6 +198,41 @@ def script_roll_up(rng, tx, nlines, force_pac=False):
         tx.misc("RU%d" % n); tx.misc("EDM"); tx.fetch(); tx.cut()
 
 
+def script_roll_depth(rng, tx):
+    """roll-up scripts that change the depth RU2 <-> RU3 <-> RU4 in every order WITHOUT leaving roll-up mode, with PACs to every
+    row - also rows 1..3, where the window does not fit above the base row and the PAC handler moves it down - before and after
+    the change, then carriage returns.  libzvbi erases and returns to row 15 on a new depth (15.119 (f)(1)(iii) keeps the base
+    row: a deviation kept out of the reference comparison, class `ru-depth`); what is judged here: no crash, the cursor / window
+    invariants on every `st`, event_on_change."""
+    top = [0, 0, 1, 1, 2, 2, 3]
+    n = rng.randrange(2, 5)
+    tx.misc("RU%d" % n); tx.st()
+    for _ in range(rng.randrange(2, 7)):
+        if rng.random() < 0.8:
+            tx.pac(rng.choice(top) if rng.random() < 0.6 else rng.randrange(15), indent=rng.choice([0, 0, 4, 28]))
+            tx.st()
+        if rng.random() < 0.6:
+            tx.text(words(rng, rng.randrange(3, 12)))
+        if rng.random() < 0.4:
+            for _ in range(rng.randrange(1, 3)):
+                tx.dbl = True; tx.misc("CR"); tx.dbl = None
+            tx.st()
+        # another depth, still in roll-up mode: larger and smaller, every order
+        n = rng.choice([d for d in (2, 3, 4) if d != n])
+        tx.misc("RU%d" % n); tx.st()
+        if rng.random() < 0.4:
+            tx.pac(rng.choice(top) if rng.random() < 0.6 else rng.randrange(15), indent=rng.choice([0, 0, 4]))
+            tx.st()
+        if rng.random() < 0.5:
+            tx.text(words(rng, rng.randrange(3, 10)))
+        for _ in range(rng.randrange(1, 4)):
+            tx.dbl = True; tx.misc("CR"); tx.dbl = None
+        tx.st()
+        if rng.random() < 0.5:
+            tx.fetch()
+    tx.cut()
+
+
 def script_paint_on(rng, tx, nrows):
     tx.misc("RDC"); tx.misc("EDM"); tx.fetch(); tx.cut()
     for r in rng.sample(range(15), nrows):
@@ -245,7 +280,7 @@ class RowView:
         return not any(c in self.cells(r) for c in range(a, b))
 
 
-def edit_ops(rng, tx, rv, istext, allow_edm):
+def edit_ops(rng, tx, rv, istext, allow_edm, synced=False):
     """one correction in the middle of a row; returns True when the result is visible at once (fetch allowed)"""
     kinds = ["bs", "bsder", "der", "tab", "enm", "nul"]
     if allow_edm:
@@ -279,7 +314,10 @@ def edit_ops(rng, tx, rv, istext, allow_edm):
         tx.misc("EDM")
         if not istext:
             rv.occ = {}
-        return True
+            return True
+        # inside a text transmission EDM belongs to the caption service (EIA-608-B 7.7): the text row is unchanged and
+        # on display only if the text before ended at a visibility point
+        return synced
     if k == "nul":
         # two NUL pairs: libzvbi's idle word break (field 1 only; on field 2 a NUL pair never reaches the decoder)
         if tx.f == 0:
@@ -308,10 +346,11 @@ def edited_row(rng, tx, rv, istext, allow_edm, page):
             es = False
         tx.text(t)
         rv.typed(len(t))
-        if es and t and t[-1] == 0x20:
+        vis = bool(es and t and t[-1] == 0x20)
+        if vis:
             tx.fetch(page)
         if rng.random() < 0.85:
-            if edit_ops(rng, tx, rv, istext, allow_edm):
+            if edit_ops(rng, tx, rv, istext, allow_edm, vis):
                 tx.fetch(page)
 
 
@@ -409,6 +448,7 @@ def field_script(rng, f, services, force_pac=False):
 
 
 END_DUMP = ["st %d" % i for i in range(9)] + ["glob"]
+NOREF = ("margin", "ru-depth")      # classes judged without the reference display (invariants, events, crashes only)
 
 
 class C08(verif.Spec):
@@ -433,8 +473,8 @@ class C08(verif.Spec):
                        "proved with them: event_on_change_repaired)",
                        "Zvbi.Props.C08Paint.fields_independent_full (false with the shared curr_chan: fields_independent_counterexample, F44; "
                        "for the per-field curr_chan the one-step frame fields_independent_partial is proved, the trace-level projection is not)"]
-    trusted_base = ["translate/gen_cc.py (constants, tables, six source facts: chsw statement order, PAC window clamp, RUx clear(), CR update guard, "
-                    "mid-row italics colour, curr_chan per field; constants cross-checked by `layout`/`st`/`glob`, the facts by the correspondence run)",
+    trusted_base = ["translate/gen_cc.py (constants, tables, seven source facts: chsw statement order, PAC window clamp, RUx clear(), CR update guard, "
+                    "mid-row italics colour, curr_chan per field, EDM/ENM re-addressed to the caption channel; constants cross-checked by `layout`/`st`/`glob`, the facts by the correspondence run)",
                     "harness/cc_harness.c + lean/Driver/Cc.lean (correspondence incl. internal scalars of all nine channels)",
                     "Cc/Spec.lean Eia608: my transcription of 47 CFR 15.119; solid-space rule as libzvbi lays it out"]
 
@@ -490,9 +530,11 @@ class C08(verif.Spec):
                 a = field_script(rng, 0, [(k, "textx")]); b = field_script(rng, 1, [(k, "textx")])
             add(LEN + merge_fields(rng, a, b) + END_DUMP, "wf-edit-2field")
         # 3c. EDM inside a text-mode transmission: EIA-608 applies it to the caption memory of the data channel
-        for _ in range(12 * N):
+        for _ in range(16 * N):
             f, k = rng.randrange(2), rng.randrange(2)
-            add(LEN + field_script(rng, f, [(k, "textedm")]) + END_DUMP, "text-edm")
+            # half of them with a pop-on caption of the same data channel on display: EDM must erase THAT
+            sv = [(k, "textedm")] if rng.random() < 0.5 else [(k, "pop"), (k, "textedm")]
+            add(LEN + field_script(rng, f, sv) + END_DUMP, "text-edm")
         # 4. both fields, different channel bit or class: finding F18 expected
         for _ in range(20 * N):
             k = rng.randrange(2)
@@ -602,6 +644,13 @@ class C08(verif.Spec):
             tx.cut()
             i = tx.pgno(istext) - 1
             add([l for u in tx.ops for l in u] + ["raw %d 0" % i, "raw %d 1" % i, "tail %d 0" % i, "tail %d 1" % i] + END_DUMP, "margin")
+        # 9. roll-up depth changes inside roll-up mode around the top rows (seed C01-h: window start above row 0)
+        for _ in range(60 * N):
+            f, k = rng.randrange(2), rng.randrange(2)
+            tx = Tx(rng, f, k)
+            script_roll_depth(rng, tx)
+            i = tx.pgno() - 1
+            add([l for u in tx.ops for l in u] + ["raw %d 0" % i, "raw %d 1" % i] + END_DUMP, "ru-depth")
         # the two event-less display changes of finding F19 are isolated between fetches of the pages they can touch
         def isolate(c):
             out, i = [], 0
@@ -621,14 +670,14 @@ class C08(verif.Spec):
                 i = j
             return out
         for n, c in enumerate(cases):
-            if self._wf.get("\n".join(c), "margin") == "margin" and c and c[0] != "layout":
+            if self._wf.get("\n".join(c), "margin") in NOREF and c and c[0] != "layout":
                 tag = self._wf.pop("\n".join(c), None)
                 cases[n] = isolate(c)
                 if tag:
                     self._wf["\n".join(cases[n])] = tag
         # expected pages of the reference model for the well-formed cases
         self._expect = {}
-        wf = [c for c in cases if self._wf.get("\n".join(c), "margin") != "margin"]
+        wf = [c for c in cases if self._wf.get("\n".join(c), "margin") not in NOREF]
         if wf:
             p = subprocess.run([verif.model_exe(), "cc608"], input=verif.flatten(wf).encode(), stdout=subprocess.PIPE, timeout=1200)
             outs = verif.split_cases(p.stdout.decode())
@@ -685,7 +734,7 @@ class C08(verif.Spec):
         if w:
             return w
         # (a) refinement to Eia608 at the visibility points
-        if exp is not None and tag and tag != "margin":
+        if exp is not None and tag and tag not in NOREF:
             if len(exp) != len(out):
                 return "reference model produced %d lines for %d ops" % (len(exp), len(out))
             lenient = "note lenient" in case
